@@ -8,7 +8,7 @@
    A history is any list of operations of Model/Store.v (registrations,
    updates incl. crashed ones, loads, removals, close/reopen, ...), every name
    in it plain.  `digest` is arbitrary. *)
-From Coq Require Import List ZArith Bool Arith.
+From Coq Require Import List ZArith Bool Arith Permutation.
 From DV Require Import Model.Catalogue Model.Store Proofs.CatalogueProofs Proofs.StoreProofs.
 Import ListNotations.
 
@@ -49,6 +49,20 @@ Proof.
   eapply CP_ext_nth; eauto.
 Qed.
 Print Assumptions C08_ids_never_reassigned.
+
+(* close/reopen rebuilds the index with sorted(table.items(), key=id): the
+   result does not depend on the order in which the dbm file enumerates the
+   table *)
+Theorem C08_reopen_order_independent : forall digest ops x t',
+  Forall plain_op ops ->
+  let c := dcat (run digest db0 ops) in
+  Permutation (tb c x) t' -> indexed t' = ix c x.
+Proof.
+  intros digest ops x t' Hp c P.
+  destruct (SP_run_Idb digest ops db0 (SP_Idb0) Hp) as [(Hw & _) _].
+  destruct (Hw x) as [Hi _]. eapply CP_indexed_any_order; eauto.
+Qed.
+Print Assumptions C08_reopen_order_independent.
 
 (* ---- every primary entry resolves through task, alg, state vector, value -- *)
 Theorem C08_chain : forall digest ops key b,
